@@ -246,10 +246,11 @@ func c09r1(c *an.Ctx) {
 	for _, st := range fieldStores(ctor, ra.maxF) {
 		if k, isC := an.ConstInt(st.Val); isC && k > 0 {
 			for _, g := range an.GuardsOf(st.Block()) {
-				if b, ok := g.Cond.(*ssa.BinOp); ok && b.Op == token.EQL && g.True && isLoadOfField(b.X, ra.maxF) {
-					if z, isZ := an.ConstInt(b.Y); isZ && z == 0 {
-						okDef = true
-					}
+				if cmp, ok := an.CmpOf(g); ok && cmp.Is(token.EQL, func(v ssa.Value) bool { return isLoadOfField(v, ra.maxF) }, func(v ssa.Value) bool {
+					z, isZ := an.ConstInt(v)
+					return isZ && z == 0
+				}) {
+					okDef = true
 				}
 			}
 		}
